@@ -96,3 +96,42 @@ fn k_shpk_plain_records() {
     }
     kani::cover!(true, "reachable");
 }
+
+//@unit props=C14,C18 label=S tier=quick fn=shpk::ResourceParameter(derive read) bound="16-byte record + name heap; strings offset 16, name length 0, every other header byte symbolic (incl. the 32-bit local name offset)" stubs=fmt::format
+//@desc id, slot and size are the little-endian fields at 0, 12, 14; the name is looked up at strings_offset + local offset without arithmetic overflow for ANY 32-bit local offset (a damaged offset must not crash the parser); 16 bytes consumed, position restored after the name
+#[kani::proof]
+#[kani::unwind(6)]
+#[kani::stub(alloc::fmt::format, stub_fmt)]
+fn k_resource_parameter_record() {
+    let mut b: [u8; 24] = kani::any();
+    b[8] = 0; b[9] = 0; // name length 0
+    let mut c = Cursor::new(&b[..]);
+    match ResourceParameter::read_args(&mut c, ResourceParameterBinReadArgs { strings_offset: 16 }) {
+        Ok(p) => {
+            assert!(p.id == le32(&b, 0) && p.slot == le16(&b, 12) && p.size == le16(&b, 14), "id, slot, size");
+            assert!(p.name.is_empty(), "empty name");
+            assert!(c.position() == 16, "16-byte record; position restored after the name lookup");
+            core::mem::forget(p);
+        }
+        Err(e) => { core::mem::forget(e); }
+    }
+    kani::cover!(true, "reachable");
+}
+
+//@unit props=C18 label=S tier=parked fn=shpk::ResourceParameter(derive read) bound="16-byte record + 2-byte name at strings offset 16 (local offset 0), name bytes symbolic" stubs=fmt::format
+//@desc a parameter whose name bytes are not valid UTF-8 is rejected or read best-effort; the parser never panics
+#[kani::proof]
+#[kani::unwind(6)]
+#[kani::stub(alloc::fmt::format, stub_fmt)]
+fn k_resource_parameter_name_nopanic() {
+    let mut b = [0u8; 18];
+    b[8] = 2; // name length 2
+    let n: [u8; 2] = kani::any();
+    b[16] = n[0]; b[17] = n[1];
+    let mut c = Cursor::new(&b[..]);
+    match ResourceParameter::read_args(&mut c, ResourceParameterBinReadArgs { strings_offset: 16 }) {
+        Ok(p) => { core::mem::forget(p); }
+        Err(e) => { core::mem::forget(e); }
+    }
+    kani::cover!(true, "reachable");
+}
